@@ -6,6 +6,13 @@ C18 part 2 - inductive invariants of the interleaving model (`step` / `spawn`), 
 every atomic step of every process with every environment input.  `Theorems.lean` derives the
 clauses of the property from them.
 -/
+-- the `first | (...; done) | ...` cascades below try the cheap closing tactic first; in the branches where it
+-- already succeeds the linters report the fallbacks as unused. They are needed in the other branches.
+set_option linter.unusedTactic false
+set_option linter.unreachableTactic false
+set_option linter.unusedSimpArgs false
+set_option linter.unusedVariables false
+
 namespace IstioModel.C18
 
 @[simp] theorem upd_same {α : Type} (f : Nat → α) (p : Nat) (v : α) : upd f p v p = v := by simp [upd]
